@@ -189,27 +189,28 @@ From Coq Require Import NArith Bool.
 Definition lits_for (f : string) (l : list (string * string * list N)) : list (string * list N) :=
   map (fun x => (snd (fst x), snd x)) (filter (fun x => String.eqb (fst (fst x)) f) l).
 
-(* which source files each property's model stands for *)
-Definition files_C01 : list string := ["src/bin/roughenough-client.rs"; "src/merkle.rs"; "src/sign.rs"].
-Definition files_C02 : list string := ["src/grease.rs"; "src/responder.rs"; "src/key/online.rs"; "src/merkle.rs"].
-Definition files_C03 : list string := ["src/bin/roughenough-client.rs"; "src/message.rs"].
-Definition files_C04 : list string := ["src/merkle.rs"].
-Definition files_C05 : list string := ["src/message.rs"].
-Definition files_C06 : list string := ["src/message.rs"].
-Definition files_C07 : list string := ["src/request.rs"; "src/lib.rs"].
-Definition files_C08 : list string := ["src/server.rs"; "src/responder.rs"; "src/request.rs"; "src/grease.rs"].
-Definition files_C09 : list string := ["src/server.rs"; "src/responder.rs"].
-Definition files_C10 : list string := ["src/key/longterm.rs"; "src/key/online.rs"].
-Definition files_C11 : list string := ["src/key/online.rs"].
-Definition files_C12 : list string := ["src/request.rs"; "src/version.rs"].
-Definition files_C13 : list string := ["src/sign.rs"].
-Definition files_C14 : list string := ["src/kms/envelope.rs"; "src/kms/mod.rs"].
-Definition files_C15 : list string := ["src/bin/roughenough-server.rs"; "src/server.rs"; "src/config/mod.rs"].
-Definition files_C16 : list string := ["src/config/mod.rs"; "src/config/file.rs"; "src/config/environment.rs"].
-Definition files_C17 : list string := ["src/stats/per_client.rs"; "src/stats/mod.rs"; "src/stats/reporter.rs"].
-Definition files_C18 : list string := ["src/bin/roughenough-server.rs"; "src/server.rs"].
-Definition files_C19 : list string := ["src/bin/roughenough-server.rs"; "src/stats/reporter.rs"; "src/server.rs"].
-Definition files_C20 : list string := ["src/config/mod.rs"; "src/config/file.rs"].
+(* which source files each property's model stands for, and which of their functions it does not
+   (C03 / C05 do not speak about Display) *)
+Definition files_C01 : list (string * list string) := [("src/bin/roughenough-client.rs", []); ("src/merkle.rs", []); ("src/sign.rs", [])].
+Definition files_C02 : list (string * list string) := [("src/grease.rs", []); ("src/responder.rs", []); ("src/key/online.rs", []); ("src/merkle.rs", [])].
+Definition files_C03 : list (string * list string) := [("src/bin/roughenough-client.rs", []); ("src/message.rs", ["to_string"])].
+Definition files_C04 : list (string * list string) := [("src/merkle.rs", [])].
+Definition files_C05 : list (string * list string) := [("src/message.rs", ["to_string"])].
+Definition files_C06 : list (string * list string) := [("src/message.rs", [])].
+Definition files_C07 : list (string * list string) := [("src/request.rs", []); ("src/lib.rs", [])].
+Definition files_C08 : list (string * list string) := [("src/server.rs", []); ("src/responder.rs", []); ("src/request.rs", []); ("src/grease.rs", [])].
+Definition files_C09 : list (string * list string) := [("src/server.rs", []); ("src/responder.rs", [])].
+Definition files_C10 : list (string * list string) := [("src/key/longterm.rs", []); ("src/key/online.rs", [])].
+Definition files_C11 : list (string * list string) := [("src/key/online.rs", [])].
+Definition files_C12 : list (string * list string) := [("src/request.rs", []); ("src/version.rs", [])].
+Definition files_C13 : list (string * list string) := [("src/sign.rs", [])].
+Definition files_C14 : list (string * list string) := [("src/kms/envelope.rs", []); ("src/kms/mod.rs", [])].
+Definition files_C15 : list (string * list string) := [("src/bin/roughenough-server.rs", []); ("src/server.rs", []); ("src/config/mod.rs", [])].
+Definition files_C16 : list (string * list string) := [("src/config/mod.rs", []); ("src/config/file.rs", []); ("src/config/environment.rs", [])].
+Definition files_C17 : list (string * list string) := [("src/stats/per_client.rs", []); ("src/stats/mod.rs", []); ("src/stats/reporter.rs", [])].
+Definition files_C18 : list (string * list string) := [("src/bin/roughenough-server.rs", []); ("src/server.rs", [])].
+Definition files_C19 : list (string * list string) := [("src/bin/roughenough-server.rs", []); ("src/stats/reporter.rs", []); ("src/server.rs", [])].
+Definition files_C20 : list (string * list string) := [("src/config/mod.rs", []); ("src/config/file.rs", [])].
 
 Definition reviewed_literals : list (string * string * list N) := [
   ("src/request.rs", "-", [64; 32]%N);
@@ -288,8 +289,10 @@ Definition reviewed_literals : list (string * string * list N) := [
 
 
 (* the literals of the given files are today the reviewed ones *)
-Definition literals_ok (files : list string) : Prop :=
-  Forall (fun f => lits_for f num_literals = lits_for f reviewed_literals) files.
+Definition lits_sel (sel : string * list string) (l : list (string * string * list N)) : list (string * list N) :=
+  filter (fun x => negb (existsb (String.eqb (fst x)) (snd sel))) (lits_for (fst sel) l).
+Definition literals_ok (files : list (string * list string)) : Prop :=
+  Forall (fun f => lits_sel f num_literals = lits_sel f reviewed_literals) files.
 
 (* the same as a computation (decided by vm_compute: fails at once when a number changed) *)
 Fixpoint list_eqb {A} (eqb : A -> A -> bool) (l1 l2 : list A) : bool :=
@@ -300,5 +303,5 @@ Fixpoint list_eqb {A} (eqb : A -> A -> bool) (l1 l2 : list A) : bool :=
   end.
 Definition lits_eqb (a b : list (string * list N)) : bool :=
   list_eqb (fun x y => String.eqb (fst x) (fst y) && list_eqb N.eqb (snd x) (snd y)) a b.
-Definition literals_okb (files : list string) : bool :=
-  forallb (fun f => lits_eqb (lits_for f num_literals) (lits_for f reviewed_literals)) files.
+Definition literals_okb (files : list (string * list string)) : bool :=
+  forallb (fun f => lits_eqb (lits_sel f num_literals) (lits_sel f reviewed_literals)) files.
